@@ -14,7 +14,7 @@ import itertools
 import logging
 import random
 
-from .. import vloop, ncpsim, appharness
+from .. import vloop, ncpsim, ncpmodel, appharness
 from ..runner import Acc
 from .. import logmode
 from ..contracts import install_status_contract
@@ -42,7 +42,7 @@ EXHAUSTIVE = {"quick": "success/failure strings up to length 8; full-alphabet st
 REACH = {t: ["raising_feed", "reset_by_success_at_each_run_length", "failure_in_first_command",
              "failure_in_second_command", "period_boundary_crossed", "v4_nop", "timeout_failure",
              "invalid_command_failure", "stopped_failure", "raise_twice_in_a_row", "closed_failure",
-             "few_free_buffers_reported", "ncp_restarted_between_feeds"] for t in ("quick", "thorough")}
+             "few_free_buffers_reported", "ncp_restarted_between_feeds", "free_buffer_read_answered_with_an_error_status"] for t in ("quick", "thorough")}
 SHARD_TIMEOUT = {"quick": 900, "thorough": 3600}
 
 
@@ -84,6 +84,11 @@ def run_shard(desc) -> Acc:
                 k = plan["second"]
                 plan["second"] = None
                 return [("none",)] if k == "T" else [("invalid", 0x36)]
+            if name == "getValue" and plan.get("gv_status") and int(args["valueId"]) == 0x03:
+                # the free-buffer read is answered, with a status other than success and no value: the keep-alive
+                # itself succeeded and nothing timed out or raised - still a successful feed
+                kind = plan.pop("gv_status")
+                return [("reply", [ncpmodel.status(ncp, "getValue", kind), b""])]
             return None
 
         ncp.script = script
@@ -99,6 +104,10 @@ def run_shard(desc) -> Acc:
             feeds += 1
             acc.ev("feeds")
             plan["first"] = plan["second"] = None
+            plan.pop("gv_status", None)
+            if sym in ("S", "R") and V != 4 and rnd.random() < 0.3:
+                plan["gv_status"] = rnd.choice(["invalid_id", "oom", "fatal", "invalid_value", "invalid_call"])
+                acc.hit("free_buffer_read_answered_with_an_error_status")
             # what the NCP reports as free buffers varies from feed to feed (incl. nearly none)
             ap.net.free_buffers = rnd.choice([0, 1, 3, 7, 8, 0x20, 0xF0, 0xFF])
             if ap.net.free_buffers < 8:
